@@ -151,6 +151,8 @@ def fields_expected(m):
     t = m['type']
     if t == 'version':
         v = m['nVersion']
+        if v == 10300:
+            v = 300                   # historic alias kept by the reference client and by the library
         d = {'nVersion': v, 'nServices': m['nServices'], 'nTime': m['nTime'], 'addrTo': norm_addr(m['addrTo'], False),
              'fRelay': bool(m['fRelay']) if v >= 70001 else True}
         if v >= 106:
@@ -375,7 +377,7 @@ def s_msg(draw, types=None):
 
 @st.composite
 def s_old_version(draw):
-    v = draw(st.sampled_from([106, 208, 209, 300, 31402, 60002, 70000, 209, 106]))
+    v = draw(st.sampled_from([106, 208, 209, 300, 31402, 60002, 70000, 209, 106, 105, 1, 0, -1, 10300, -2 ** 31]))
     return {'type': 'version', 'nVersion': v, 'nServices': draw(gen.u64), 'nTime': draw(gen.i64), 'addrTo': draw(addr_nt), 'addrFrom': draw(addr_nt),
             'nNonce': draw(gen.u64), 'strSubVer': draw(small_blob), 'nStartingHeight': draw(gen.i32), 'fRelay': True}
 
